@@ -398,9 +398,27 @@ def symbolic_for(I, s, env, it, n):
         else:
             elem = tuple(row if k == pos else x for k, x in enumerate(elem))
     I.assign(s.target, elem, env)
+    # leading `if <cond>: continue` statements select the iterations that do anything: a guard on the loop index
+    body = list(s.body)
+    ph_names = [pn for (_p, pn) in ph.values() if pn]
+    while body and isinstance(body[0], ast.If) and not body[0].orelse and len(body[0].body) == 1 and isinstance(body[0].body[0], ast.Continue):
+        cv = I.ev(body[0].test, env)
+        if isinstance(cv, (Cond, Poly)) and C(cv).const() is None:
+            cc = C(cv)
+            if any(mentions(cc, pn) for pn in ph_names):
+                raise ModelError("skip condition of a summarised loop depends on loop-carried state")
+            neg = T.c_not(cc)
+            prev = guard
+            guard = (lambda j, neg=neg, prev=prev: T.c_and(T.subst(neg, {iname: P(j)}), prev(j)) if prev is not None
+                     else T.subst(neg, {iname: P(j)}))
+            I.assumed.add(neg)
+        elif I.truth(cv):
+            body = []                 # every iteration is skipped
+            break
+        body.pop(0)
     pathlen = len(I.path)
     try:
-        I.exec_block(s.body, env)
+        I.exec_block(body, env)
     except T_Continue:
         pass
     except T_Break:
